@@ -14,7 +14,11 @@ RULE = ('scenario = tasks run with asyncio (concurrently), each task a sequence 
         'invocations — more than any per-core limit lets run at once —, through ONE decorated function per callee kind (a module-level '
         '@in_subprocess def) and through calculate_in_subprocess; SEVERAL EVENT LOOPS one after the other in the same interpreter (2-4 '
         'asyncio.run rounds per scenario, wide and small, mixed callee kinds, fd numbers and decorated functions re-used from loop to loop): '
-        'every invocation of every round must get its own result; enumerated families + seeded random mixes (with rounds); every scenario in its own process, '
+        'every invocation of every round must get its own result; GATED callees (the callee waits for a multiprocess.Event that the parent sets as soon as '
+        'given other invocations have handed over their result — relative durations fixed by design, no timing): an invocation whose child dies without a '
+        'result (every death kind) among 1-12 siblings started in the same loop iteration that outlive it (before / between / after them), 36+ pending long '
+        'invocations (more than any default thread pool has workers) that wait for a short one started after them; enumerated families + seeded random mixes '
+        '(with rounds, with gates); every scenario in its own process, '
         'watchdog 4.5 s per event loop (HANG), process group killed afterwards.  non-trivial = more than one invocation or a callee '
         'that does not simply return')
 EXHAUSTIVE = {'quick': False, 'thorough': False}
@@ -22,7 +26,7 @@ ASSUMPTIONS = [
     'PARTIAL: real OS schedules cannot be enumerated from user space — the schedule quantifier is discharged on the protocol model (all interleavings, proved) and sampled on the real library through quantised callee durations',
     'pickling (dill) of arguments/results and fork() of a process that has threads are outside the model; an unpicklable result is modelled as "the child ends inside send"',
     'cancellation of the awaiting task is not modelled',
-    'fork inheritance of other invocations\' pipe ends is not modelled: with the current statement order Pipe→start→tx.close contains no await, so no other fork can happen while a write end is open in the parent',
+    'fork inheritance of other invocations\' pipe ends is not modelled: with the current statement order Pipe→start→tx.close contains no await, so no other fork can happen while a write end is open in the parent — read off the source on every run (generated fact awaitsWhileWriteEndOpen, theorem no_await_while_write_end_open) and exercised by the gated scenarios (a child that dies without a result among siblings that outlive it)',
     'process.join() blocks the event loop from the end of the child\'s send until the child has exited; the model states that this is the only synchronous wait, it does not bound its duration',
     'event loop = asyncio on selectors.EpollSelector (Linux): a closed fd silently leaves the kernel interest set but stays in the selector map',
     'a child that lingers after its send (non-daemon thread, slow exit handler) keeps the parent inside the synchronous process.join() for that long, and the '
@@ -152,6 +156,22 @@ def finish(spec, idx, tag):
     raise RuntimeError(kind)
 
 
+GATES = {}      # invocation index -> multiprocess.Event (created before anything is forked); the callee of that invocation waits for it
+
+
+def wait_gate(idx):
+    """a callee that ends only when the caller says so: `idx` is gated on other invocations, its event is set by the parent as soon as
+    all of them have handed over their result (an arbitrary relative duration: this one outlives those, by design)"""
+    if idx in GATES and os.getpid() != PARENT:
+        GATES[idx].wait(60)
+
+
+def open_gates(res):
+    for i, ev in GATES.items():
+        if not ev.is_set() and all(res[j] is not None and res[j]['state'] == 'done' for j in SC['invs'][i]['gate']):
+            ev.set()
+
+
 def make(spec):
     early = spec['callee'] == ['death', 'beforeRun']
     if spec['callee'][0] == 'spawn':
@@ -164,11 +184,13 @@ def make(spec):
         if spec['async']:
             async def callee(idx, *, tag):
                 await asyncio.sleep(spec['dur'] * Q)
+                wait_gate(idx)
                 payload = via_process(spec['size']) if how == 'process' else await nested(spec['size'])
                 return (idx, os.getpid(), tag, payload)
         else:
             def callee(idx, *, tag):
                 time.sleep(spec['dur'] * Q)
+                wait_gate(idx)
                 payload = via_process(spec['size']) if how == 'process' else asyncio.run(nested(spec['size']))
                 return (idx, os.getpid(), tag, payload)
         return callee
@@ -177,12 +199,14 @@ def make(spec):
             if early:
                 os._exit(3)
             await asyncio.sleep(spec['dur'] * Q)
+            wait_gate(idx)
             return finish(spec, idx, tag)
     else:
         def callee(idx, *, tag):
             if early:
                 os._exit(3)
             time.sleep(spec['dur'] * Q)
+            wait_gate(idx)
             return finish(spec, idx, tag)
     return callee
 
@@ -317,6 +341,7 @@ async def main(rno, chains):
             out, pid = classify(spec, i, kind, val)
             res[i] = {'state': 'done', 'out': out, 'pid': pid, 'wall': time.monotonic() - t0, 'ticks': ticks[0] - k0, 'val': val, 'left': left}
             order.append(i)
+            open_gates(res)
 
     async def blocker(nz):
         """freezes the event loop until nz children have been killed (used to catch a child in the middle of a big send)"""
@@ -367,6 +392,9 @@ async def main(rno, chains):
     os._exit(0)
 
 
+for _i, _spec in enumerate(SC['invs']):
+    if _spec.get('gate'):
+        GATES[_i] = multiprocess.Event()
 DIRECT = direct_calls()
 for _rno, _chains in enumerate(ROUNDS):
     asyncio.run(main(_rno, _chains))
@@ -375,7 +403,7 @@ for _rno, _chains in enumerate(ROUNDS):
 
 # ------------------------------------------------------------------------------------------------ scenarios
 
-def inv(callee, dur=1, size=16, big=None, is_async=False, form='deco', exc='ValueError', base='sysexit', linger=1.5):
+def inv(callee, dur=1, size=16, big=None, is_async=False, form='deco', exc='ValueError', base='sysexit', linger=1.5, key=None, gate=None):
     kind = callee[0]
     if kind == 'midsend':
         size = 1 << 20
@@ -388,6 +416,10 @@ def inv(callee, dur=1, size=16, big=None, is_async=False, form='deco', exc='Valu
         d['linger'] = linger          # seconds the child stays alive after `_inner` has sent
     if kind == 'base':
         d['base'] = base
+    if key is not None:
+        d['key'] = key                # a name other invocations of the scenario refer to
+    if gate:
+        d['gate_keys'] = list(gate)   # the callee ends only after the invocations with these keys have handed over their result
     return d
 
 
@@ -408,7 +440,19 @@ def scenario(tasks, origin='', rounds=None):
             chains.append(ids)
         rl.append(chains)
         sizes.append(len(invs) - n0)
-    c = {'invs': [{'callee': s['callee'], 'big': s['big'], 'dur': s['dur'], 'pred': s['pred']} for s in invs]}
+        # gates: by key, within the round.  An invocation others wait for must be able to end on its own: neither it nor anything
+        # awaited before it in its chain is gated (otherwise the scenario would deadlock by construction, whatever the library does)
+        keys = {s['key']: i for i, s in enumerate(invs) if i >= n0 and 'key' in s}
+        for i in range(n0, len(invs)):
+            if 'gate_keys' in invs[i]:
+                invs[i]['gate'] = sorted(keys[k] for k in invs[i]['gate_keys'])
+                for j in invs[i]['gate']:
+                    k = j
+                    while k is not None:
+                        assert 'gate_keys' not in invs[k], 'a gate on a gated invocation'
+                        k = invs[k]['pred']
+    c = {'invs': [{'callee': s['callee'], 'big': s['big'], 'dur': s['dur'], 'pred': s['pred']} | ({'gate': s['gate']} if s.get('gate') else {})
+                  for s in invs]}
     x = {'invs': invs, 'tasks': tl, 'origin': origin}
     if rounds is not None and len(rl) > 1:
         c['rounds'] = sizes
@@ -544,6 +588,36 @@ def cases(rng, tier):
             out.append(scenario(None, 'random-rounds', rounds=[
                 [[rand_inv(rng, maxdur=2) | ({'share': True} if rng.random() < 0.5 else {}) for _ in range(1 if rng.random() < 0.7 else 2)]
                  for _ in range(rng.choice([1, 2, 3, CPUS + 1] if k % 8 == 0 else [1, 2, 3]))] for _ in range(nr)]))
+    # (g) callees that end only when the caller says so (the callee waits for a multiprocess.Event that the parent sets as soon as another
+    #     invocation has handed over its result): "arbitrary relative durations" with the order fixed BY DESIGN, no timing involved.
+    #     g1: an invocation whose child dies without a result, started in the same loop iteration as siblings that outlive it — it must end
+    #         (ChildProcessError) while they are still running (nothing of invocation A may be kept open by the children of the others);
+    #     g2: more pending invocations than any default thread pool has workers (min(32, cpu_count + 4) <= 32) and one short invocation
+    #         started after them, which the long ones wait for — an invocation must not need a slot of anything to get its result.
+    for k, c in enumerate(DEATHS):
+        sib = [[inv((['ret'], ['exc'])[j % 2], dur=0, gate=['A'], is_async=(j % 3 == 2), form=('deco', 'func')[(j + k) % 2])] for j in range(6)]
+        pos = (0, 3, 6)[k % 3]
+        out.append(scenario(sib[:pos] + [[inv(c, dur=0, key='A', base=('sysexit', 'kbd')[k % 2], form=('deco', 'func')[k % 2])]] + sib[pos:], 'gated-death'))
+    out.append(scenario([[inv(['death', 'osExit'], dur=0, key='A')], [inv(['death', 'signal'], dur=1, key='B')]]
+                        + [[shared(inv(['ret'], dur=0, gate=['A', 'B']))] for _ in range(5)], 'gated-death'))
+    out.append(scenario([[inv(['ret'], dur=0, key='A'), inv(['death', 'osExit'], dur=0, key='B')]]
+                        + [[inv(['ret'], dur=0, gate=['B'])] for _ in range(4)] + [[inv(['ret'], dur=1)]], 'gated-death+sequence'))
+    n_long = max(36, CPUS + 8)
+    out.append(scenario([[shared(inv(['ret'], dur=0, gate=['S']))] for _ in range(n_long)] + [[inv(['ret'], dur=0, key='S', form='func')]], 'wide-gated'))
+    out.append(scenario([[inv(['ret'], dur=0, gate=['S'], form='func', is_async=(j % 2 == 1))] for j in range(n_long)]
+                        + [[inv(['ret'], dur=1), inv(['exc'], dur=0, key='S')]], 'wide-gated'))
+    if thorough:
+        out.append(scenario(None, 'wide-gated-rounds', rounds=[[[shared(inv(['ret'], dur=0, gate=['S']))] for _ in range(n_long)] + [[inv(['death', 'osExit'], dur=0, key='S')]]] * 2))
+        for c in DEATHS:
+            for n_sib in (1, 2, 12):
+                for pos in sorted({0, n_sib // 2, n_sib}):
+                    sib = [[inv(['ret'], dur=rng.randint(0, 1), gate=['A'], is_async=rng.random() < 0.3, form=rng.choice(['deco', 'func']))] for _ in range(n_sib)]
+                    out.append(scenario(sib[:pos] + [[inv(c, dur=rng.randint(0, 1), key='A', is_async=rng.random() < 0.3)]] + sib[pos:], 'gated-death'))
+    for k in range(40 if thorough else 3):
+        first = rand_inv(rng, maxdur=1) | {'key': 'A'}
+        others = [[rand_inv(rng, maxdur=1) | ({'gate_keys': ['A']} if rng.random() < 0.7 else {})] for _ in range(rng.randint(1, 5))]
+        pos = rng.randint(0, len(others))
+        out.append(scenario(others[:pos] + [[first]] + others[pos:], 'random-gated'))
     nmax = 8 if thorough else 6
     for k in range(0 if thorough else 4):
         out.append(scenario(None, 'random-rounds', rounds=[
@@ -592,6 +666,13 @@ def search(rng, tier, near):
         for form in ('deco', 'func'):
             out.append(scenario(None, 'search', rounds=[wide(n, form=form)] * 3))
     out.append(scenario(None, 'search', rounds=[[[shared(inv(['ret'], dur=0))]]] * 6))
+    # something of one invocation held by another / a bounded resource per pending invocation: gated callees (see cases (g))
+    for c in DEATHS:
+        for n_sib, pos in ((1, 0), (1, 1), (6, 0), (6, 3), (6, 6), (20, 10)):
+            sib = [[inv(['ret'], dur=0, gate=['A'])] for _ in range(n_sib)]
+            out.append(scenario(sib[:pos] + [[inv(c, dur=0, key='A')]] + sib[pos:], 'search'))
+    for n in (8, 16, 33, 40, max(36, CPUS + 8), 2 * CPUS + 9):
+        out.append(scenario([[shared(inv(['ret'], dur=0, gate=['S']))] for _ in range(n)] + [[inv(['ret'], dur=0, key='S')]], 'search'))
     for _ in range(12):
         out.append(scenario([[rand_inv(rng) for _ in range(rng.randint(1, 3))] for _ in range(rng.randint(1, 3))], 'search'))
     return out
@@ -611,17 +692,26 @@ def run_one(runner, case, env):
         # the hard limit is per event loop: the runner writes a line when a round has ended, the last line is its report
         deadline = time.time() + HARD
         while True:
-            ready, _, _ = select.select([p.stdout], [], [], max(0.0, deadline - time.time()))
-            if not ready:
+            ready, _, _ = select.select([p.stdout], [], [], max(0.0, min(0.2, deadline - time.time())))
+            if ready:
+                chunk = os.read(p.stdout.fileno(), 1 << 16)
+                if not chunk:
+                    break
+                out += chunk
+                if b'\n' in chunk:
+                    deadline = time.time() + HARD
+            elif p.poll() is not None:
+                # the runner has ended (children of hung invocations may still hold the pipe open): read what it wrote and stop
+                while select.select([p.stdout], [], [], 0)[0]:
+                    chunk = os.read(p.stdout.fileno(), 1 << 16)
+                    if not chunk:
+                        break
+                    out += chunk
+                break
+            elif time.time() >= deadline:
                 timed_out = True
                 out = b''
                 break
-            chunk = os.read(p.stdout.fileno(), 1 << 16)
-            if not chunk:
-                break
-            out += chunk
-            if b'\n' in chunk:
-                deadline = time.time() + HARD
     finally:
         try:
             os.killpg(p.pid, signal.SIGKILL)      # the scenario's process group: stragglers of a hung invocation
@@ -707,14 +797,19 @@ def judge(case, impl, model):
     finding = None
     if any(o[0] == 'runner-error' for o in impl['out']):
         pfail = f"the scenario process could not run the library at all (exit code {impl['out'][0][1]})"
-    for i in range(n):
+    # an invocation that others are gated on is looked at first: when it hangs, theirs hanging too is a consequence
+    for i in sorted(range(n), key=lambda i: bool(x['invs'][i].get('gate'))):
         if pfail:
             break
         o = impl['out'][i]
         kind = x['invs'][i]['callee']
         if o == ['hang'] and s['terminates']:
+            waiting = [j for j in range(n) if i in (x['invs'][j].get('gate') or [])]
             pfail = (f"HANG: invocation {i} (callee {kind}) was still pending {WATCHDOG} s after the start"
-                     + (' — the whole event loop was frozen' if impl.get('frozen') else ''))
+                     + (' — the whole event loop was frozen' if impl.get('frozen') else '')
+                     + (f"; the callees of invocations {waiting} end only after it has handed over its result (they wait for an event the caller "
+                        f"sets then): it has to end while they are still running" if waiting else '')
+                     + (f"; its callee ends only after invocations {x['invs'][i]['gate']} have ended" if x['invs'][i].get('gate') else ''))
         elif kind[0] == 'spawn' and str(i) in impl.get('direct', {}) and impl['direct'][str(i)][:1] == ['ret'] \
                 and (o != impl['direct'][str(i)] or o not in s['allowed'][i]):
             cls = (impl.get('classes') or [None] * n)[i]
@@ -747,7 +842,7 @@ def judge(case, impl, model):
     paths = sorted(set(m.get('path', [])))
     return {'corr': corr, 'pfail': pfail, 'finding': finding,
             'nontrivial': n > 1 or x['invs'][0]['callee'][0] != 'ret',
-            'tag': f"n={n}{'/seq' if seq else ''}{'/loops=%d' % len(x['rounds']) if x.get('rounds') else ''}"
+            'tag': f"n={n}{'/seq' if seq else ''}{'/gated' if any(k.get('gate') for k in x['invs']) else ''}{'/loops=%d' % len(x['rounds']) if x.get('rounds') else ''}"
                    f"{'/wide' if any(len(r) > CPUS for r in (x.get('rounds') or [x['tasks']])) else ''}/{'+'.join(kinds)}/{'+'.join(paths)}",
             'why': '; '.join(why)}
 
